@@ -60,8 +60,8 @@ _COLS = ['a', 'b', 'c', 'd']
 JOINS = ['ij', 'inner', 'oj', 'outer', 'lj', 'left', 'rj', 'right']
 METHODS = [None, None, 'ffill', 'bfill']
 
-INCLUDE_F11 = os.environ.get('PV_C03_INCLUDE_F11', '') == '1'
-INCLUDE_F14 = os.environ.get('PV_C03_INCLUDE_F14', '') == '1'
+INCLUDE_F11 = os.environ.get('PV_C03_EXCLUDE_F11', '') != '1'      # fixed in /repo: the class is generated by default
+INCLUDE_F14 = os.environ.get('PV_C03_EXCLUDE_F14', '') != '1'      # fixed in /repo: the class is generated by default
 # F15 was fixed in /repo by 7d8a266 (nona mask of a zero-row frame), so the class is generated again; PV_C03_EXCLUDE_F15=1 leaves it out for older trees
 INCLUDE_F15 = os.environ.get('PV_C03_EXCLUDE_F15', '') != '1'
 
@@ -1015,7 +1015,7 @@ _RULE_TS = ('timeseries = float Series (NaN sprinkled / none / all NaN), int Ser
             'cell values unique per object/column/stamp; ')
 
 SUBS = [
-    Sub('sync', lambda tier: _sync_case(), run_sync, quick=1600, thorough=15000,
+    Sub('sync', lambda tier: _sync_case(), run_sync, quick=1600, thorough=12000,
         rule=_RULE_TS + 'trees of list/dict/Dict (top-level tuple for df_sync) to depth 3 with 1-4 members per level mixing timeseries and None/int/float/str; '
              'df_sync / df_reindex / df_index with join in ij,oj,lj,rj (two spellings), explicit DatetimeIndex, Series as index; method None/ffill/bfill; '
              'columns ij/oj/lj/rj/None/False. Oracle: dictionary model per cell, index as ordered list, column set, container types/keys, identity of '
@@ -1023,21 +1023,21 @@ SUBS = [
              'filled from another stamp',
         floor=0.3, class_floors={'depth>=2': 0.15, 'empty_intersection': 0.01, 'empty_series': 0.05, 'frames_differing_columns': 0.03,
                                  'as_of_filled_cell': 0.1, 'join=l': 0.04, 'join=r': 0.04, 'join=idx': 0.05, 'join=series': 0.05, 'join=i': 0.04, 'join=o': 0.04}),
-    Sub('asof', lambda tier: _asof_case(), run_sync, quick=1600, thorough=15000,
+    Sub('asof', lambda tier: _asof_case(), run_sync, quick=1600, thorough=12000,
         rule=_RULE_TS + 'one bare object, df_reindex(obj, explicit DatetimeIndex / Series as index / ij / oj, method) with method mostly ffill/bfill; '
              'same oracle. non-trivial = a cell filled from another stamp',
         floor=0.1, class_floors={'method=ffill': 0.15, 'method=bfill': 0.15, 'multi_column_frame': 0.1, 'as_of_filled_cell': 0.1}),
-    Sub('presync', lambda tier: _presync_case(), run_presync, quick=1200, thorough=10000,
+    Sub('presync', lambda tier: _presync_case(), run_presync, quick=1200, thorough=8000,
         rule=_RULE_TS + 'f(p0..p3) returns its arguments; 1-4 arguments (each a leaf or a tree to depth 2) passed positionally / by keyword / mixed; '
              'presync configured by constructor, by properties (.oj.ffill), by call-time join=/method=, or index="p<i>"; columns=False with any tree, '
              'default column mode with Series-only trees. Same oracle on what f receives. non-trivial as in sync',
         floor=0.3, class_floors={'mixed_positional_keyword': 0.1, 'mode=raw': 0.2, 'mode=cols': 0.2, 'how=prop': 0.1, 'how=call': 0.1, 'join=arg': 0.02}),
-    Sub('presync_cols', lambda tier: _presync_case(True), run_presync_cols, quick=1000, thorough=8000,
+    Sub('presync_cols', lambda tier: _presync_case(True), run_presync_cols, quick=1000, thorough=6000,
         rule=_RULE_TS + 'default column mode with frames among the arguments: f records every call; expected one call per common column (the shared columns '
              'when all multi-column frames agree, else the ij/oj/lj/rj column set), each call seeing every multi-column frame as that column (Series on the '
              'common index, as-of filled) or NaN when the frame lacks it, single-column frames as their column, Series aligned, the rest identical',
         floor=0.3, class_floors={'frames_differing_columns': 0.1, 'all_frames_same_columns': 0.1}),
-    Sub('arrays', lambda tier: _arrays_case(6 if tier == 'quick' else 9), run_arrays, quick=2000, thorough=15000,
+    Sub('arrays', lambda tier: _arrays_case(6 if tier == 'quick' else 9), run_arrays, quick=2000, thorough=12000,
         rule='trees (depth <= 3) of bare numpy arrays: 1-d and 2-d (1-3 columns), 0-6 rows (0-9 thorough), float64 with NaN / int64, mixed with scalars; '
              'df_sync / df_reindex / df_index / presync(columns=False) with ij,oj,lj,rj and method None/ffill/bfill. Oracle: common length = min/max/first/last, '
              'every array = its last n rows or NaN rows in front, per-column fill, shape and trailing dimensions kept, inputs unchanged. '
